@@ -5,7 +5,7 @@ from .. import nodegen
 from . import _nodecommon
 
 ID = "C06"
-SUITES = ["init", "node"]
+SUITES = ["init", "node", "config"]
 LEAN_MODULES = ["VpnCloud.Proofs.C06", "VpnCloud.Proofs.C02More", "VpnCloud.Proofs.C06Config"]
 THEOREMS = ["VpnCloud.Proofs.C06." + n for n in ("select_spec", "selectRef_symm", "select_symm", "selectRef_perm", "plain_iff_both", "fail_iff_none_common", "selected_is_best", "selected_tiebreak")]
 THEOREMS = THEOREMS + ["VpnCloud.Proofs.C02More." + n for n in ('select_plain_iff_both', 'plain_only_if_both', 'session_plain_needs_peer_flag', 'responder_plain_needs_ping_flag', 'plain_peer_only_by_plain_handshake')]
@@ -57,6 +57,14 @@ DESIGN_REF = "DESIGN.md section 5, C06"
 def gen(tier, rng):
     for x in initgen.c06_scripts(rng, tier == "thorough"):
         yield x
+    # which ciphers a node "enabled": the cipher list through the configuration merge (a command-line list replaces the file's list, it does not extend it)
+    from . import C20 as _c20
+    kops = ["cfgdefault"]
+    for _ in range(200 if tier == "thorough" else 40):
+        fo = ["algorithms"] if rng.chance(3, 4) else []
+        ao = ["algorithms"] if rng.chance(3, 4) else []
+        kops.append("%s %s %s" % (rng.choice(["cfgmerge", "cfgrt"]), _c20.file_assign(rng, fo), _c20.arg_assign(rng, ao)))
+    yield Script("cipher-list-merge", kops, {"suite": "config"})
     # the advertised set is the configured set, whatever the order and spelling of the user's list
     yield initgen.cfg_algos_script(rng.fork("cfg"), "cfg-algos", tier == "thorough")
     # node level: unencrypted sessions only where both ends enabled 'plain'; no common cipher => no connection
